@@ -100,6 +100,9 @@ func (c *c18Sess) eventFor(id string) *mocrelay.Event {
 }
 
 func (c *c18Sess) end() *ev.Failure {
+	if why := c.s.Altered(); why != "" {
+		return c.fail("reply-altered-after-delivery", "a refused REQ is answered by a CLOSED that names it: a reply the client has received keeps its wording afterwards", why, "")
+	}
 	if err := c.s.End(); err != nil {
 		return c.fail("session-end", "the session ends", err.Error(), "")
 	}
